@@ -153,6 +153,7 @@ __strpdt_std(const char *str, char **ep)
 	struct dt_dt_s res = {DT_UNK};
 	struct strpdt_s d = {0};
 	const char *sp;
+	const char *tp;
 
 	if ((sp = str) == NULL) {
 		goto out;
@@ -200,17 +201,22 @@ try_time:
 		sp = str;
 		goto out;
 	} else if ((sp++, d.st.m = strtoi_lim(sp, &sp, 0, 59)) < 0) {
+		/* not a time then, leave the lot alone */
 		d.st.m = 0;
+		sp = str;
 		goto out;
 	} else if (*sp != ':') {
 		goto eval_time;
-	} else if ((sp++, d.st.s = strtoi_lim(sp, &sp, 0, 60)) < 0) {
+	} else if ((d.st.s = strtoi_lim(sp + 1U, &tp, 0, 60)) < 0) {
+		/* the colon isn't ours then */
 		d.st.s = 0;
-	} else if (*sp != '.') {
+	} else if (*(sp = tp) != '.') {
 		goto eval_time;
-	} else if ((sp++, d.st.ns = strtoi_lim(sp, &sp, 0, 999999999)) < 0) {
+	} else if ((d.st.ns = strtoi_lim(sp + 1U, &tp, 0, 999999999)) < 0) {
+		/* nor is the dot */
 		d.st.ns = 0;
-		goto eval_time;
+	} else {
+		sp = tp;
 	}
 eval_time:
 	if (UNLIKELY(d.st.h == 24)) {
@@ -223,7 +229,6 @@ eval_time:
 	res.t.hms.m = d.st.m;
 	res.t.hms.s = d.st.s;
 	if (res.d.typ > DT_DUNK) {
-		const char *tp;
 		dt_make_sandwich(&res, res.d.typ, DT_HMS);
 		/* check for the zone stuff */
 		if ((d.zdiff = try_zone(sp, &tp))) {
